@@ -559,3 +559,38 @@ func (e *Env) HoldInVerify(client, src int, l *Layer, until <-chan struct{}) (re
 		return false, o.res
 	}
 }
+
+// AbandonFnInVerify runs do(ctx) (a blocking report of some kind, e.g. Blank.SetSource) and cancels ctx while the
+// monitor is inside Verify for it. Returns false when Verify was not reached (do then simply completed).
+func (e *Env) AbandonFnInVerify(do func(ctx context.Context) error) (abandoned bool, err error) {
+	reached, release := make(chan struct{}), make(chan struct{})
+	armed := atomic.Bool{}
+	armed.Store(true)
+	setHook := func(f func(*Cfg)) {
+		e.S.mu.Lock()
+		e.S.OnVerify = f
+		e.S.mu.Unlock()
+	}
+	setHook(func(*Cfg) {
+		if armed.CompareAndSwap(true, false) {
+			close(reached)
+			<-release
+		}
+	})
+	defer setHook(nil)
+	cctx, cancel := context.WithCancel(e.S.Ctx)
+	defer cancel()
+	done := make(chan error, 1)
+	go func() { done <- do(cctx) }()
+	select {
+	case <-reached:
+		cancel()
+		err = <-done
+		close(release)
+		return true, err
+	case err = <-done:
+		armed.Store(false)
+		close(release)
+		return false, err
+	}
+}
